@@ -27,7 +27,9 @@ func svSnapInto(dst *[]metadata.HTTP2FingerprintingFrames) http.HandlerFunc {
 	}
 }
 
-func VerifC06_serve_two_connections() {
+func VerifC06_serve_two_connections() { svC06(0, 3) }
+
+func svC06(ilo, ihi int) {
 	var snapsA, snapsB []metadata.HTTP2FingerprintingFrames
 	srv := &Server{}
 	a := svStart(srv, &http.Server{}, svSnapInto(&snapsA))
@@ -54,7 +56,7 @@ func VerifC06_serve_two_connections() {
 	wantA, preA, midA, reqA = mk("a", 1, 0)
 	wantB, preB, midB, reqB = mk("b", 1, 1)
 	// interleavings of the two clients' progress
-	switch vRange("interleaving", 0, 3) {
+	switch vRange("interleaving", ilo, ihi) {
 	case 0: // A entirely, then B
 		a.c.feed(preA, midA, reqA)
 		vYield()
